@@ -23,7 +23,14 @@ TOL == 200
 NT == Len(T.demands)
 Abs(x) == IF x < 0 THEN -x ELSE x
 Dot(d, p) == SumSeq(LAMBDA i : d[i] * p[i], NT)
-AllFits == {p \in [1..NT -> 0..T.W] : (\A i \in 1..NT : p[i] <= T.W \div T.sizes[i]) /\ FitsRoll(T.W, T.sizes, p)}
+\* custom-pricing mode: the trace carries the explicit column set ("pool") instead of a roll width; "fits the roll" becomes
+\* "is a column of the set", the pricing optimum is taken over the set, the true minimum is MinCover over the set
+Custom == "pool" \in DOMAIN T
+PoolSet == IF Custom THEN {T.pool[j] : j \in 1..Len(T.pool)} ELSE {}
+Fits(p) == IF Custom THEN p \in PoolSet ELSE FitsRoll(T.W, T.sizes, p)
+AllFits == IF Custom THEN PoolSet
+           ELSE {p \in [1..NT -> 0..T.W] : (\A i \in 1..NT : p[i] <= T.W \div T.sizes[i]) /\ FitsRoll(T.W, T.sizes, p)}
+TrueMin == IF Custom THEN MinCover(PoolSet, T.demands) ELSE MinRolls(T.W, T.sizes, T.demands)
 Init == tid \in 1..Len(Batch) /\ l = 1 /\ duals = <<>> /\ div = {}
 MasterGuards(e) ==
   LET nc == Len(e.cols)
@@ -31,7 +38,7 @@ MasterGuards(e) ==
       sumx == SumSeq(LAMBDA j : e.x6[j], nc)
       colset == {e.cols[j] : j \in 1..nc}
       best == MinCover(colset, T.demands)
-  IN (IF \A j \in 1..nc : FitsRoll(T.W, T.sizes, e.cols[j]) THEN {} ELSE {"Master.column_does_not_fit_the_roll"})
+  IN (IF \A j \in 1..nc : Fits(e.cols[j]) THEN {} ELSE {"Master.column_does_not_fit_the_roll"})
      \cup (IF ~e.finite THEN {}
            ELSE (IF (\A j \in 1..nc : e.x6[j] >= -TOL) /\ (\A i \in 1..NT : covered(i) >= T.demands[i] * S6 - TOL * nc) THEN {} ELSE {"Master.primal_point_infeasible"})
                 \cup (IF Abs(e.lp6 - sumx) <= TOL * (nc + 1) THEN {} ELSE {"Master.value_is_not_sum_of_x"})
@@ -40,7 +47,7 @@ MasterGuards(e) ==
                 \cup (IF best >= 0 /\ e.lp6 > best * S6 + TOL THEN {"Master.value_exceeds_best_integer_plan_over_its_columns"} ELSE {}))
 PriceGuards(e) ==
   LET v == Dot(duals, e.pattern) IN
-  (IF FitsRoll(T.W, T.sizes, e.pattern) /\ \A i \in 1..NT : e.pattern[i] >= 0 THEN {} ELSE {"Pricing.pattern_does_not_fit_the_roll"})
+  (IF (e.value6 = 0 /\ \A i \in 1..NT : e.pattern[i] = 0) \/ (Fits(e.pattern) /\ \A i \in 1..NT : e.pattern[i] >= 0) THEN {} ELSE {"Pricing.pattern_does_not_fit_the_roll"})
   \cup (IF duals = <<>> THEN {"Pricing.before_any_master"}
         ELSE (IF Abs(e.value6 - v) <= TOL * NT * 4 THEN {} ELSE {"Pricing.value_is_not_duals_times_pattern"})
              \cup (IF \E p \in AllFits : Dot(duals, p) > e.value6 + TOL * NT * 4 THEN {"Pricing.better_pattern_exists"} ELSE {}))
@@ -53,7 +60,7 @@ Step == /\ l <= Len(T.steps) /\ l' = l + 1 /\ UNCHANGED tid
 Spec == Init /\ [][Step]_vars
 PriceIdx == {i \in 1..Len(T.steps) : T.steps[i].k = "price"}
 LastPrice == T.steps[CHOOSE i \in PriceIdx : \A j \in PriceIdx : j <= i]
-Final == (IF T.converged /\ T.lb > MinRolls(T.W, T.sizes, T.demands) /\ MinRolls(T.W, T.sizes, T.demands) >= 0
+Final == (IF T.converged /\ T.lb > TrueMin /\ TrueMin >= 0
           THEN {"Finish.lower_bound_exceeds_true_minimum"} ELSE {})
          \* OPTIMAL rests on the master value being a lower bound, i.e. on a last pricing call that found no improving pattern
          \cup (IF T.status = "OPTIMAL" /\ (PriceIdx = {} \/ LastPrice.value6 > S6 + TOL * NT * 4)
